@@ -258,7 +258,7 @@ class History:
     """Model-based generator of valid call histories for one bandit configuration."""
 
     def __init__(self, draw, config, reward_family=None, grid="int", d=None, max_rows=10, min_rows=1,
-                 arm_changes=True, exact_only=False, max_d=3, query_rows=(1, 2, 3, 5)):
+                 arm_changes=True, exact_only=False, max_d=3, query_rows=(1, 2, 3, 5), series_queries=False):
         self.draw = draw
         self.cfg = config
         self.arms = list(config["arms"])
@@ -278,6 +278,7 @@ class History:
         self.query_rows = query_rows
         self.ops = []
         self.has_prob_list = bool(self.np and self.np[1].get("no_nhood_prob_of_arm"))
+        self.series_queries = series_queries
 
     def _min_fit_rows(self):
         if self.np is None:
@@ -336,11 +337,21 @@ class History:
         self.fitted = True
         return self._emit(["partial_fit", dec, rew, ctx])
 
+    def _query_op(self, kind, m):
+        q = self.queries(m)
+        if self.series_queries and self.contextual and q is not None and (self.d == 1 or len(q) == 1) \
+                and self.draw(st.integers(0, 5)) == 0:
+            # the same query as a pandas Series, where the documented disambiguation applies: one feature -> one row
+            # per value, several features -> a single row
+            vals = [r[0] for r in q] if self.d == 1 else list(q[0])
+            return self._emit([kind + "_series", vals])
+        return self._emit([kind, q])
+
     def predict(self, m=None):
-        return self._emit(["predict", self.queries(m)])
+        return self._query_op("predict", m)
 
     def predict_expectations(self, m=None):
-        return self._emit(["predict_expectations", self.queries(m)])
+        return self._query_op("predict_expectations", m)
 
     def query(self, m=None):
         if self.draw(st.booleans()):
